@@ -49,6 +49,21 @@ fn text_pool(rng: &mut Rng, slots: usize) -> Vec<String> {
             texts.push(pool::class_text(class, i % 2));
         }
     }
+    // layout variants that matter for position conversion: CRLF line ends, no final line break
+    let n = texts.len();
+    for i in 0..n {
+        match rng.below(8) {
+            0 => {
+                let t = texts[i].replace('\n', "\r\n");
+                texts.push(t);
+            }
+            1 => {
+                let t = texts[i].trim_end().to_string();
+                texts.push(t);
+            }
+            _ => {}
+        }
+    }
     texts.push(String::new());
     texts
 }
@@ -179,11 +194,11 @@ pub fn gen_c12(rng: &mut Rng, _thorough: bool) -> LspTrace {
     let mut counter = 0;
     for _ in 0..len {
         let e = match rng.below(12) {
-            0 | 1 if en_unknown_req => Event::UnknownRequest { method: rng.pick(UNKNOWN_REQUESTS).to_string(), uri: rng.pick(&uris).to_string(), string_id: rng.chance(1, 4) },
+            0 | 1 if en_unknown_req => Event::UnknownRequest { method: rng.pick(UNKNOWN_REQUESTS).to_string(), uri: rng.pick(&uris).to_string(), id_kind: if rng.chance(1, 2) { 0 } else { rng.below(6) as u8 } },
             2 | 3 if en_unknown_notif => Event::UnknownNotification { method: rng.pick(UNKNOWN_NOTIFICATIONS).to_string(), uri: rng.pick(&uris).to_string() },
             4 if en_client_resp => Event::ClientResponse { id: rng.below(5) as i32, error: rng.chance(1, 2) },
             5 if en_dup => Event::DupPrev,
-            6 | 7 if en_semtok => Event::SemTok { uri: rng.pick(&uris).to_string() },
+            6 | 7 if en_semtok => Event::SemTok { uri: rng.pick(&uris).to_string(), id_kind: if rng.chance(1, 2) { 0 } else { rng.below(6) as u8 } },
             _ => gen_edit_event(rng, &texts, &uris, &mut counter, en_multi),
         };
         events.push(e);
@@ -241,12 +256,12 @@ pub fn gen_c15(rng: &mut Rng, _thorough: bool) -> LspTrace {
     for _ in 0..len {
         let e = match rng.below(10) {
             0 if allow_restart => Event::Restart,
-            1 | 2 | 3 => Event::SemTok { uri: rng.pick(&uris).to_string() },
+            1 | 2 | 3 => Event::SemTok { uri: rng.pick(&uris).to_string(), id_kind: if rng.chance(3, 4) { 0 } else { rng.below(6) as u8 } },
             _ => gen_edit_event(rng, &texts, &uris, &mut counter, false),
         };
         events.push(e);
     }
-    events.push(Event::SemTok { uri: rng.pick(&uris).to_string() });
+    events.push(Event::SemTok { uri: rng.pick(&uris).to_string(), id_kind: 0 });
     LspTrace { prop: "C15".into(), ws_files: vec![], use_ws_folder: false, events, hash_seeds: (0..3).map(|_| rng.next()).collect(), dir_seed: rng.next(), mode: "random".into() }
 }
 
@@ -860,7 +875,7 @@ fn fresh_server_tokens(uri: &str, text: &str, seed: u64) -> Result<Value, String
     let hooks = SimHooks::new(root(), seed, vec![]);
     let mut s = Session::start(seed, hooks, None);
     s.deliver(None, "didOpen", event_message(&Event::Open { uri: uri.to_string(), version: 1, text: text.to_string() }, 0).unwrap());
-    s.deliver(None, "target", event_message(&Event::SemTok { uri: uri.to_string() }, 0).unwrap());
+    s.deliver(None, "target", event_message(&Event::SemTok { uri: uri.to_string(), id_kind: 0 }, 0).unwrap());
     let inc = s.shutdown_and_exit();
     if let Some(d) = inc.died {
         return Err(format!("fresh server died: {d}"));
@@ -970,7 +985,7 @@ pub fn execute(t: &LspTrace, stats: &mut Stats) -> RunReport {
         match ev {
             Event::UnknownRequest { method, .. } => stats.count(&format!("event.unknownRequest.{method}")),
             Event::UnknownNotification { method, .. } => stats.count(&format!("event.unknownNotification.{method}")),
-            Event::Open { uri, .. } | Event::Change { uri, .. } | Event::SemTok { uri } => {
+            Event::Open { uri, .. } | Event::Change { uri, .. } | Event::SemTok { uri, .. } => {
                 if !WS_URIS.contains(&uri.as_str()) {
                     stats.count("event.oddUri");
                 }
